@@ -65,6 +65,12 @@ def run_translators():
     return gen_all.run(REPO, ROCQ / "Gen")
 
 
+def failed_translations():
+    """{"Gen/GenX.v": why} for the tables whose translator failed in the last run_translators()"""
+    import gen_all
+    return dict(gen_all.FAILED_FILES)
+
+
 # ----------------------------------------------------------------------------- coq
 def all_v_files():
     out = []
@@ -423,6 +429,8 @@ class Run:
         n, files = count_obligations(self.prop)
         self.obligations = n
         self.coverage["proof_files"] = files
+        # a translator that cannot read the current source breaks exactly the properties whose proofs depend on its table
+        errs = [f"{f}: {why}" for f, why in failed_translations().items() if f in files]
         if errs or not ok:
             self.proof_ok = False
             failed = coq_failed_files(mk)
